@@ -247,69 +247,104 @@ structure Frame where
   hook : Hook
   vm : Store               -- the persistent side cache (committed by endTxHook on OK)
   anteRan : Bool
+  anteDone : Bool          -- the ante handler returned without abort
   msgsRan : Nat
   deriving Repr, Inhabited
 
 /-- the closure `consumeBlockGas` -/
 def consumeBlockGas (f : Frame) : Frame :=
-  if f.mode = .deliver ∧ !f.blockGasConsumed then
-    let r := f.block.consume f.cur.consumedToLimit
-    let f := { f with blockGasConsumed := true, block := r.1 }
-    match r.2 with
-    | some g => { f with pan := some (toPan g) }
+  if f.mode = .deliver ∧ f.blockGasConsumed = false then
+    match (f.block.consume f.cur.consumedToLimit).2 with
+    | some g => { f with blockGasConsumed := true, block := (f.block.consume f.cur.consumedToLimit).1,
+                         pan := some (toPan g) }
     | none =>
-      if r.1.gasConsumed < f.startingGas then { f with pan := some .other }   -- panic(ErrGasOverflow)
-      else f
+      if (f.block.consume f.cur.consumedToLimit).1.gasConsumed < f.startingGas then
+        -- panic(ErrGasOverflow("tx gas summation"))
+        { f with blockGasConsumed := true, block := (f.block.consume f.cur.consumedToLimit).1, pan := some .other }
+      else
+        { f with blockGasConsumed := true, block := (f.block.consume f.cur.consumedToLimit).1 }
   else f
 
-/-- the body of runTx from `amino.Unmarshal` to the final `return result` -/
-def body (tx : Tx) (f : Frame) : Frame :=
-  if !tx.decodable then { f with result := .txdecode }
-  else if tx.msgs.isEmpty then { f with result := .unknownrequest }
-  else if tx.msgs.any (fun m => !m.valid) then { f with result := .basic }
+/-- amino.Unmarshal and validateBasicTxMsgs: `some r` = runTx returns with that error -/
+def preAnte (tx : Tx) : Option Res :=
+  if !tx.decodable then some .txdecode
+  else if tx.msgs.isEmpty then some .unknownrequest
+  else if tx.msgs.any (fun m => !m.valid) then some .basic
+  else none
+
+/-- DeliverTx, after runMsgs returned without a panic (`f.result` is its result;
+`side` is the tx-scoped side cache):
+
+    if result.IsOK() { consumeBlockGas() }
+    endTxHook(runMsgCtx, result)
+    if result.IsOK() { msCache.MultiWrite() } else { cp.WriteCheckpoint() }
+-/
+def finishDeliver (f : Frame) (side : Store) : Frame :=
+  let f := if f.result = .ok then consumeBlockGas f else f
+  match f.pan with
+  | some _ => f
+  | none =>
+    if f.result = .ok then
+      { f with hook := .ok, vm := side ++ f.vm, parent := f.cache ++ f.parent, cache := [], cp := none }
+    else
+      { f with hook := .fail, parent := (f.cp.getD []) ++ f.parent, cache := [], cp := none }
+
+/-- the same place BEFORE the fix f77314a29b: endTxHook and MultiWrite first, the
+block gas meter is charged only by the deferred `consumeBlockGas` -/
+def finishDeliverOld (f : Frame) (side : Store) : Frame :=
+  if f.result = .ok then
+    { f with hook := .ok, vm := side ++ f.vm, parent := f.cache ++ f.parent, cache := [], cp := none }
   else
-    let a := runAnte tx.ante tx.gasWanted f.parent f.cur
-    let f := { f with anteRan := true, cache := a.cache }
-    match a.out with
-    | .pan p => { f with cur := a.incoming, incoming := a.incoming, pan := some p }
-    | .abort oog => { f with cur := a.incoming, incoming := a.incoming,
-                             result := if oog then .oog else .ante }
+    { f with hook := .fail, parent := (f.cp.getD []) ++ f.parent, cache := [], cp := none }
+
+/-- runTx after the ante handler returned without abort (`f` already carries the
+ante's context: `cur`, `incoming`, `gasWanted`, `cache`) -/
+def afterAnte (fin : Frame → Store → Frame) (tx : Tx) (f : Frame) : Frame :=
+  match f.mode with
+  | .check =>
+    -- msCache.MultiWrite(); return result   (the outer, still zero, result)
+    { f with parent := f.cache ++ f.parent, cache := [] }
+  | _ =>
+    -- cp.Checkpoint(); defer WriteCheckpoint; beginTxHook; runMsgs
+    let r := runMsgs tx.msgs { cache := f.cache, parent := f.parent, meter := f.cur, side := [] } 0
+    let f := { f with cp := some f.cache, cpDefer := true,
+                      cache := r.env.cache, cur := r.env.meter, msgsRan := r.ran,
+                      incoming := (match tx.ante.kind with
+                        | .pass => r.env.meter.baseOf
+                        | .keep => r.env.meter
+                        | _ => f.incoming) }
+    match r.pan with
+    | some p => { f with pan := some p }
+    | none =>
+      if f.mode = .deliver then fin { f with result := r.res } r.env.side
+      else { f with result := r.res }          -- Simulate: return result
+
+/-- the body of runTx from `amino.Unmarshal` to the final `return result` -/
+def body (fin : Frame → Store → Frame) (tx : Tx) (f : Frame) : Frame :=
+  match preAnte tx with
+  | some r => { f with result := r }
+  | none =>
+    match (runAnte tx.ante tx.gasWanted f.parent f.cur).out with
+    | .pan p =>
+      { f with anteRan := true, cache := (runAnte tx.ante tx.gasWanted f.parent f.cur).cache,
+               cur := (runAnte tx.ante tx.gasWanted f.parent f.cur).incoming,
+               incoming := (runAnte tx.ante tx.gasWanted f.parent f.cur).incoming, pan := some p }
+    | .abort oog =>
+      { f with anteRan := true, cache := (runAnte tx.ante tx.gasWanted f.parent f.cur).cache,
+               cur := (runAnte tx.ante tx.gasWanted f.parent f.cur).incoming,
+               incoming := (runAnte tx.ante tx.gasWanted f.parent f.cur).incoming,
+               result := if oog then .oog else .ante }
     | .done =>
-      let f := { f with cur := a.cur, incoming := a.incoming, gasWanted := tx.gasWanted }
-      match f.mode with
-      | .check =>
-        -- msCache.MultiWrite(); return result   (the outer, still zero, result)
-        { f with parent := f.cache ++ f.parent, cache := [] }
-      | _ =>
-        -- cp.Checkpoint(); defer WriteCheckpoint; beginTxHook; runMsgs
-        let f := { f with cp := some f.cache, cpDefer := true }
-        let r := runMsgs tx.msgs { cache := f.cache, parent := f.parent, meter := f.cur, side := [] } 0
-        let f := { f with cache := r.env.cache, cur := r.env.meter, msgsRan := r.ran,
-                          incoming := (match tx.ante.kind with
-                            | .pass => r.env.meter.baseOf
-                            | .keep => r.env.meter
-                            | _ => f.incoming) }
-        match r.pan with
-        | some p => { f with pan := some p }
-        | none =>
-          let f := { f with result := r.res }
-          if f.mode ≠ .deliver then f            -- Simulate: return result
-          else
-            -- if result.IsOK() { consumeBlockGas() }
-            let f := if f.result = .ok then consumeBlockGas f else f
-            match f.pan with
-            | some _ => f
-            | none =>
-              -- endTxHook(runMsgCtx, result)
-              let f := if f.result = .ok then { f with hook := .ok, vm := r.env.side ++ f.vm }
-                       else { f with hook := .fail }
-              -- if result.IsOK() { msCache.MultiWrite() } else { cp.WriteCheckpoint() }
-              if f.result = .ok then { f with parent := f.cache ++ f.parent, cache := [], cp := none }
-              else { f with parent := (f.cp.getD []) ++ f.parent, cache := [], cp := none }
+      afterAnte fin tx
+        { f with anteRan := true, anteDone := true,
+                 cache := (runAnte tx.ante tx.gasWanted f.parent f.cur).cache,
+                 cur := (runAnte tx.ante tx.gasWanted f.parent f.cur).cur,
+                 incoming := (runAnte tx.ante tx.gasWanted f.parent f.cur).incoming,
+                 gasWanted := tx.gasWanted }
 
 /-- third defer (runs first): flush the ante writes if a checkpoint is still active -/
 def deferWriteCheckpoint (f : Frame) : Frame :=
-  if f.cpDefer ∧ f.mode = .deliver then
+  if f.cpDefer = true ∧ f.mode = .deliver then
     match f.cp with
     | some c => { f with parent := c ++ f.parent, cache := [], cp := none }
     | none => f
@@ -332,30 +367,35 @@ structure TxOut where
   store : Store          -- the parent store after the tx
   block : Meter
   incoming : Meter       -- the incoming meter after the tx
+  cur : Meter            -- ctx.GasMeter() when runTx returned
   vm : Store
   hook : Hook
   anteRan : Bool
+  anteDone : Bool
   msgsRan : Nat
   crash : Bool           -- a panic outside runTx's recover (never happens for a well-formed block meter)
   deriving Repr, Inhabited
 
 def Frame.out (f : Frame) : TxOut :=
   { res := f.result, gasWanted := f.gasWanted, gasUsed := f.cur.gasConsumed, store := f.parent,
-    block := f.block, incoming := f.incoming, vm := f.vm, hook := f.hook,
-    anteRan := f.anteRan, msgsRan := f.msgsRan, crash := false }
+    block := f.block, incoming := f.incoming, cur := f.cur, vm := f.vm, hook := f.hook,
+    anteRan := f.anteRan, anteDone := f.anteDone, msgsRan := f.msgsRan, crash := false }
 
 def Frame.init (mode : Mode) (parent : Store) (block : Meter) (incoming : Meter) (vm : Store) : Frame :=
   { mode := mode, parent := parent, block := block, startingGas := 0, cur := incoming, incoming := incoming,
     gasWanted := 0, cache := [], cp := none, cpDefer := false, blockGasConsumed := false,
-    result := .ok, pan := none, hook := .none, vm := vm, anteRan := false, msgsRan := 0 }
+    result := .ok, pan := none, hook := .none, vm := vm, anteRan := false, anteDone := false, msgsRan := 0 }
 
 /-- everything after the block-gas early exit: body, then the defers in LIFO order -/
-def runFrame (tx : Tx) (f : Frame) : TxOut :=
-  (deferRecover (deferConsumeBlockGas (deferWriteCheckpoint (body tx f)))).out
+def runFrame (fin : Frame → Store → Frame) (tx : Tx) (f : Frame) : TxOut :=
+  (deferRecover (deferConsumeBlockGas (deferWriteCheckpoint (body fin tx f)))).out
 
-/-- `runTx`.  `ctxMeter` is the gas meter of the context handed to runTx (the
-deliver/check state's infinite meter, shared by all txs of that state). -/
-def runTx (mode : Mode) (tx : Tx) (parent : Store) (block : Meter) (ctxMeter : Meter) (vm : Store) : TxOut :=
+/-- `runTx`, parametric in the success-path tail (`finishDeliver` now,
+`finishDeliverOld` before the fix).  `ctxMeter` is the gas meter of the context
+handed to runTx (the deliver/check state's infinite meter, shared by all txs of
+that state). -/
+def runTxWith (fin : Frame → Store → Frame) (mode : Mode) (tx : Tx) (parent : Store) (block : Meter)
+    (ctxMeter : Meter) (vm : Store) : TxOut :=
   match mode with
   | .deliver =>
     -- gasleft := ctx.BlockGasMeter().Remaining(); ctx = ctx.WithGasMeter(NewPassthroughGasMeter(ctx.GasMeter(), gasleft))
@@ -365,71 +405,18 @@ def runTx (mode : Mode) (tx : Tx) (parent : Store) (block : Meter) (ctxMeter : M
       match Basic.new gasleft with
       | .error _ => { (Frame.init mode parent block ctxMeter vm).out with crash := true }
       | .ok head =>
-        let incoming := Meter.pass ctxMeter head
         if block.isOutOfGas then
           -- "no block gas left to run tx": returns before any defer is registered
-          { (Frame.init mode parent block incoming vm).out with res := .oog }
+          { (Frame.init mode parent block (Meter.pass ctxMeter head) vm).out with res := .oog }
         else
-          runFrame tx { Frame.init mode parent block incoming vm with startingGas := block.gasConsumed }
-  | _ => runFrame tx (Frame.init mode parent block ctxMeter vm)
+          runFrame fin tx { Frame.init mode parent block (Meter.pass ctxMeter head) vm with
+                            startingGas := block.gasConsumed }
+  | _ => runFrame fin tx (Frame.init mode parent block ctxMeter vm)
 
-/-! ### the ordering BEFORE the fix f77314a29b (regression of the model's expressiveness)
+def runTx := runTxWith finishDeliver
 
-`msCache.MultiWrite()` and `endTxHook` ran first; the block gas meter was charged
-only by the deferred `consumeBlockGas`. -/
-
-def bodyOld (tx : Tx) (f : Frame) : Frame :=
-  if !tx.decodable then { f with result := .txdecode }
-  else if tx.msgs.isEmpty then { f with result := .unknownrequest }
-  else if tx.msgs.any (fun m => !m.valid) then { f with result := .basic }
-  else
-    let a := runAnte tx.ante tx.gasWanted f.parent f.cur
-    let f := { f with anteRan := true, cache := a.cache }
-    match a.out with
-    | .pan p => { f with cur := a.incoming, incoming := a.incoming, pan := some p }
-    | .abort oog => { f with cur := a.incoming, incoming := a.incoming,
-                             result := if oog then .oog else .ante }
-    | .done =>
-      let f := { f with cur := a.cur, incoming := a.incoming, gasWanted := tx.gasWanted }
-      match f.mode with
-      | .check => { f with parent := f.cache ++ f.parent, cache := [] }
-      | _ =>
-        let f := { f with cp := some f.cache, cpDefer := true }
-        let r := runMsgs tx.msgs { cache := f.cache, parent := f.parent, meter := f.cur, side := [] } 0
-        let f := { f with cache := r.env.cache, cur := r.env.meter, msgsRan := r.ran,
-                          incoming := (match tx.ante.kind with
-                            | .pass => r.env.meter.baseOf
-                            | .keep => r.env.meter
-                            | _ => f.incoming) }
-        match r.pan with
-        | some p => { f with pan := some p }
-        | none =>
-          let f := { f with result := r.res }
-          if f.mode ≠ .deliver then f
-          else
-            let f := if f.result = .ok then { f with hook := .ok, vm := r.env.side ++ f.vm }
-                     else { f with hook := .fail }
-            if f.result = .ok then { f with parent := f.cache ++ f.parent, cache := [], cp := none }
-            else { f with parent := (f.cp.getD []) ++ f.parent, cache := [], cp := none }
-
-def runFrameOld (tx : Tx) (f : Frame) : TxOut :=
-  (deferRecover (deferConsumeBlockGas (deferWriteCheckpoint (bodyOld tx f)))).out
-
-def runTxOld (mode : Mode) (tx : Tx) (parent : Store) (block : Meter) (ctxMeter : Meter) (vm : Store) : TxOut :=
-  match mode with
-  | .deliver =>
-    match block.remaining with
-    | .error _ => { (Frame.init mode parent block ctxMeter vm).out with crash := true }
-    | .ok gasleft =>
-      match Basic.new gasleft with
-      | .error _ => { (Frame.init mode parent block ctxMeter vm).out with crash := true }
-      | .ok head =>
-        let incoming := Meter.pass ctxMeter head
-        if block.isOutOfGas then
-          { (Frame.init mode parent block incoming vm).out with res := .oog }
-        else
-          runFrameOld tx { Frame.init mode parent block incoming vm with startingGas := block.gasConsumed }
-  | _ => runFrameOld tx (Frame.init mode parent block ctxMeter vm)
+/-- the ordering BEFORE the fix f77314a29b (regression of the model's expressiveness) -/
+def runTxOld := runTxWith finishDeliverOld
 
 /-! ## the application around runTx -/
 
